@@ -271,7 +271,8 @@ def run(c):
                         fq_strings[q["pkg"] + "." + q["name"]] = (q["pkg"], q["name"])
                 for cu in g.get("custom") or []:
                     f = cu["target"].split()
-                    fq_strings[cu["fqn"]] = (f[1], f[2])
+                    if len(f) == 3:      # (an unresolvable name has no target)
+                        fq_strings[cu["fqn"]] = (f[1], f[2])
         fq_keys = sorted(fq_strings)
         jobs = [("Cases_%s.v" % tag, eval_source(o))]
         if fq_keys:
@@ -496,6 +497,20 @@ def run(c):
                 c.fail("oracle", "Load %s although a qualified name %s be resolved by the documented precedence" % (
                     ("succeeds", "cannot") if loaded else ("fails", "can")), input=ctx,
                     expected="load error" if sc["o_failed"] else "loads", observed=sc["load_err"] or ("loads" + own_note))
+            elif loaded and sc.get("o_run_panic"):
+                # a custom filter asks for a name that cannot be resolved: documented to panic (the run stops with the resolution
+                # error), never an answer -- a filter that goes on is silently false (or silently means something else)
+                c.nontrivial.add(("unresolvable-at-run-time", sc["o_run_panic"], all_imports))
+                c.coverage["custom_unresolvable_files"] = c.coverage.get("custom_unresolvable_files", 0) + 1
+                if not sc.get("own_run"):
+                    c.fail("oracle", "a custom filter's lookup of `%s`, a name that cannot be resolved, does not stop the run: the filter "
+                           "answers (silently false, or for some other type)" % sc["o_run_panic"], input=ctx,
+                           expected="Run panics with the resolution error (dsl: GetType / GetInterface panic when the type can't be found)",
+                           observed="Run completes; reports %s" % json.dumps(sc["obs"], sort_keys=True))
+                elif not any(part in sc["own_run"] for part in sc["o_run_panic"].rsplit(".", 1) + ["FQN"]):
+                    c.fail("oracle", "Run stops on the unresolvable `%s`, but not with a resolution error naming it" % sc["o_run_panic"],
+                           input=ctx, expected="the resolution error", observed=sc["own_run"])
+                continue
             elif loaded and sc.get("own_run"):
                 c.fail("oracle", "Run fails on a file whose qualified names all resolve (the file has an engine of its own and is run on its own "
                        "probe functions only)", input=ctx, expected="reports for the documented targets %s" % json.dumps(sc["o_target"], sort_keys=True),
